@@ -127,6 +127,7 @@ def generate(ctx):
         elif c0 < 0.25: case['dr'] = float('%.5g' % (10 ** rng.uniform(0.5, 1.5)))
         else: case['dr' if rng.random() < 0.5 else 'dk'] = float('%.5g' % (10 ** rng.uniform(-2, 0.5)))
         if rng.random() < 0.12: case.pop('dk', None); case['dr'] = rng.choice([1, 2, 3])        # integer-TYPED spacing: Domain(length, dr=1)
+        elif rng.random() < 0.12: case.pop('dk', None); case['dr'] = float('%.5g' % (10 ** rng.uniform(-12, -9)))      # lengths in metres: spacings of 1e-12 .. 1e-9
         case['dtype'] = rng.choice(['float', 'float', 'float', 'int', 'bool'])
         for _ in range(rng.choice([0, 0, 1, 2])):
             k = rng.choice(['dr', 'dk', 'length'])
